@@ -5,7 +5,6 @@ pbt/oracles (lammps_data, lammps_dump, poscar; unit table lammps_units).  Nothin
 """
 import functools
 import io
-import math
 
 import numpy as np
 from hypothesis import strategies as st
@@ -398,7 +397,7 @@ def _volume_involved(style):
     return style_needs(style, 'volume')
 
 
-def call_data_dump(case, system, kn_style=True):
+def call_data_dump(case, system):
     """System.dump('atom_data') with the listed blocking findings turned into keyed violations"""
     style, units = case['style'], case['units']
     kw = dict(atom_style=case['style_arg'], units=case['units_arg'], float_format=case['fmt'])
@@ -572,7 +571,7 @@ def oracle_data(case):
         labels.add('defaults')
     if own is not None:
         labels.add('own_ids')
-    if case['sink'] == 'io':
+    if case.get('sink') == 'io':
         labels.add('filelike')
     if tilted and not (case['cell']['xy'] or case['cell']['xz']):
         labels.add('only_yz')
@@ -716,7 +715,7 @@ def oracle_dump(case):
     if case['prop_name'] is not None:
         kw['prop_name'] = list(case['prop_name'])
     buf = None
-    if case['sink'] == 'io':
+    if case.get('sink') == 'io':
         buf = kw['f'] = io.StringIO()
     try:
         text = system.dump('atom_dump', **kw)
@@ -879,7 +878,7 @@ def oracle_poscar(case):
     if case['symbols_arg'] is not None:
         kw['symbols'] = list(case['symbols_arg'])
     buf = None
-    if case['sink'] == 'io':
+    if case.get('sink') == 'io':
         buf = kw['f'] = io.StringIO()
     try:
         text = system.dump('poscar', **kw)
@@ -1006,7 +1005,7 @@ _BLOCKED = _blocked()
 
 CLAUSES = [
     Clause('data', oracle_data, data_cases, quick=9000, thorough=150000,
-           min_share={'nt': 0.18, 'imageflags': 0.18, 'extended': 0.3, 'velocities': 0.11, 'only_yz': 0.015,
+           min_share={'nt': 0.15, 'imageflags': 0.18, 'extended': 0.3, 'velocities': 0.11, 'only_yz': 0.015,
                       'hybrid': 0.02, 'safecopy': 0.09},
            desc="dump('atom_data'): header counts, lo<hi, tilt line, ids, containment, cell (wrap contract), types, positions "
                 "with image flags re-applied, per-style columns and Velocities against the independent unit table"),
@@ -1015,7 +1014,8 @@ CLAUSES = [
            desc="dump('atom_dump'): ITEM blocks, boundary flags, bounding box <-> lo/hi/tilt relation, column header, "
                 "x|xs|xu|xsu unscaled with the written box, standard columns in LAMMPS units, extras as stored"),
     Clause('poscar', oracle_poscar, poscar_cases, quick=5000, thorough=80000,
-           min_share={} if 'poscar' in _BLOCKED else {'nt': 0.25, 'cartesian': 0.2, 'scaled': 0.25, 'symbols': 0.15, 'zero_count': 0.05},
+           min_share={} if 'poscar' in _BLOCKED else {'nt': 0.15, 'cartesian': 0.08, 'scaled': 0.12, 'symbols': 0.15, 'zero_count': 0.05,
+                                                              'repeated_symbol': 0.06},
            desc="dump('poscar'): comment, scale, scale*lattice = box, species line, counts per type, mode line, "
                 "positions with the scale applied (up to the box origin), grouped by type"),
     Clause('snippet', oracle_snippet, snippet_cases, quick=1500, thorough=20000,
